@@ -177,6 +177,7 @@ def run(ctx):
             natoms_inc = 0
             nrest_inc = 0
             sandwich = False
+            twice = False
             ended = []
             inc_lines = {}
             pos = [i for i, l in enumerate(lines) if l.startswith('FVAR')][-1] + 1
@@ -215,6 +216,16 @@ def run(ctx):
                     # writing, those of the include file stay where they are)
                     lines.insert(pos, 'FVAR ' + ' '.join('0.7%d' % q for q in range(1, rng.randint(3, 9))))
                     pos += 1
+            if rng.random() < 0.25 and 'inc0.txt' in files:
+                # the same include file a second time further down (restraints kept in one file, pulled in once per residue): not a recursion
+                later = [i for i in range(pos + 1, len(lines)) if not lines[i].startswith((' ', '+')) and not lines[i].upper().startswith(('HKLF', 'END'))
+                         and not lines[i - 1].rstrip().endswith('=')]
+                if later:
+                    lines.insert(rng.choice(later), inc_lines['inc0.txt'].rstrip())
+                    body0 = files['inc0.txt']
+                    upto = next((q for q, l in enumerate(body0) if l.strip().upper() == 'END'), len(body0))
+                    natoms_inc += sum(1 for l in body0[:upto] if l[:1] in 'XW') + sum(1 for l in body0[:upto] if l.startswith('+nest'))
+                    twice = True
             if rng.random() < 0.3:
                 lines.insert(pos, '+missing.txt')
             for n, body in files.items():
